@@ -119,13 +119,15 @@ pub(crate) fn statement_keeps_trailing_semicolon(ctx: &FormatContext, node: &Lua
     })
 }
 
-/// Whether the first token after `token` that is neither blank nor part of a comment is `(`.
+/// Whether the first token after `token` that is neither blank, nor part of a comment, nor another
+/// `;` is `(`. Further semicolons are looked through so that every `;` of `x = y;;(f)()` gets the same
+/// answer: otherwise the first pass keeps only the last one and the next pass moves it.
 pub(crate) fn next_code_token_is_left_paren(token: &LuaSyntaxToken) -> bool {
     let mut next = token.next_token();
     while let Some(current) = next {
         let is_blank = matches!(
             current.kind().to_token(),
-            LuaTokenKind::TkWhitespace | LuaTokenKind::TkEndOfLine
+            LuaTokenKind::TkWhitespace | LuaTokenKind::TkEndOfLine | LuaTokenKind::TkSemicolon
         );
         let in_comment = current
             .parent_ancestors()
